@@ -119,6 +119,22 @@ def snapshot_timer_monitor(lines, out):
     operations).  Scenarios with callback operations are skipped (the callback may set timers itself)."""
     if any(l.startswith("cb ") for l in lines):
         return None
+    # fault settings: ModelChecker::new must carry the three rates over (as the flags the checker's semantics depends on)
+    rates = {"drop": 0.0, "dupl": 0.0, "corrupt": 0.0}
+    for l in lines:
+        w = l.split()
+        if w[0] == "mc":
+            break
+        if w[0] == "net" and len(w) == 3 and w[1] in rates:
+            rates[w[1]] = _f(w[2][1:]) if w[2].startswith("x") else float(w[2])
+    nets = next((l for l in out if l.startswith("NETS ")), None)
+    if nets:
+        got = dict(kv.split("=", 1) for kv in nets.split()[1:])
+        want = {"drop": int(rates["drop"] > 0), "dupl": int(rates["dupl"] != 0), "corrupt": int(rates["corrupt"] > 0)}
+        for k in want:
+            if got.get(k) != str(want[k]):
+                return (f"the simulator's network has {k} rate {rates[k]}, but the checker built by ModelChecker::new starts with "
+                        f"{k}={got.get(k)} (expected {want[k]}): {nets}")
     clock, sets, first = 0.0, {}, False
     for l in out:
         m = re.match(r"ret=\S+ t=([0-9a-f]{16})", l)
@@ -221,12 +237,18 @@ def gen_two_routes(rng):
         pre.insert(rng.randrange(len(pre) + 1), ("net", rng.choice([f"drop_in {a}", f"drop_out {a}", f"disable {a} {b}", f"disconnect {a}"])))
     if len(nodes) > 1 and rng.random() < 0.3:
         pre.append(("crash", rng.choice(nodes)))
+    # fault rates switched on after everything was sent: what is in flight stays fault-free on both routes, later sends are
+    # subject to the same faults (the snapshot must carry each of the three rates over)
+    rates = [k for k in ("drop", "dupl", "corrupt") if rng.random() < 0.25]
+    for k in rates:
+        pre.append(("rate", k))
     head = ["seed 1", f"draws {sim_suite.draws_for(1)}"] + topo + rules + ["net delay 2"]
     run = "mc run dfs full inv=none goal=noev prune=none collect=none"
     A = list(head); B = list(head)
     for kind, x in pre:
         if kind == "local": A.append(x); B.append("cb " + x)
         elif kind == "net": A.append("net " + x); B.append("cb net " + x)
+        elif kind == "rate": A.append(f"net {x} {sim_suite.fbits(0.5)}"); B.append(f"cb net {x} 1")
         else: A.append(f"crash {x}"); B.append(f"cb crash {x}")
     A.append(run); B += ["refenum", run]
     return A, B
